@@ -73,6 +73,14 @@ where
         }
     }
 
+    /// Disarms the input arguments of the "log prune" processor.
+    ///
+    /// The arguments were derived from the header before anything about the operation was
+    /// verified. An event which failed ingest must not cause any deletion.
+    pub(crate) fn disarm_log_prune(&mut self) {
+        self.log_prune_args = LogPruneArgs::Ignore;
+    }
+
     /// System-level data (append-only log, pruning coordination, etc.) of this operation.
     pub fn header(&self) -> &Header<E> {
         &self.operation.header
